@@ -1,5 +1,5 @@
 (* C19 driver.  Case line (decimal integers):
-   E <wkind> <ckind> <nops> { <isString 0|1> <n> <reported k> <err 0|1> <Size() after> }*nops <nrecv> { <value> }*nrecv <closed 0|1> *)
+   E <wkind> <ckind> <nops> { <isString 0|1> <n> <reported k> <err 0|1> <Size() after> }*nops <nrecv> { <value> }*nrecv <closed 0|1> <npieces> { <count reported by one call to the wrapped writer> }*npieces *)
 let () =
   let cases = ref 0 and specfail = ref 0 and mismatch = ref 0 and drift = ref 0 and delivered = ref 0 in
   iter_lines Sys.argv.(1) (fun line ->
@@ -21,9 +21,11 @@ let () =
              let rec take i l acc = if i = 0 then (List.rev acc, l) else
                match l with x :: r -> take (i - 1) r (n_of_int (int_of_string x) :: acc) | [] -> failwith ("bad case line: " ^ line) in
              let (rc, r) = take nr r [] in
-             let closed = (match r with [c] -> c = "1" | _ -> failwith ("bad case line: " ^ line)) in
+             let (closed, pieces) = (match r with
+               | c :: np :: ps when List.length ps = int_of_string np -> (c = "1", List.map (fun x -> n_of_int (int_of_string x)) ps)
+               | _ -> failwith ("bad case line: " ^ line)) in
              if nr > 1 then delivered := !delivered + nr - 1;
-             let v = check_case (n_of_int (int_of_string ck)) sc sizes rc closed in
+             let v = check_case (n_of_int (int_of_string ck)) sc pieces sizes rc closed in
              if not (spec_ok v) then begin
                incr specfail;
                Printf.printf "SPECFAIL %s size=%b monotone=%b prefix=%b final=%b closed=%b\n" line
